@@ -6,7 +6,7 @@ hist = open(os.path.join(w, "history.txt"), errors="replace").read().split("\n")
 impl = open(os.path.join(w, "impl.txt"), errors="replace").read().split("\n")
 model = open(os.path.join(w, "model.txt"), errors="replace").read().split("\n")
 two = {"ENDTX": 2, "VB": 2}
-one = {"UPROBE", "ENDSIGN", "CRASH", "QH", "UPGRADE", "ENDBLOCK", "Q", "DUMP", "EXPORTIMPORT", "KS", "CK", "DOC", "KEY58", "SIGT", "STR", "DSTR"}
+one = {"GD", "UPROBE", "ENDSIGN", "CRASH", "QH", "UPGRADE", "ENDBLOCK", "Q", "DUMP", "EXPORTIMPORT", "KS", "CK", "DOC", "KEY58", "SIGT", "STR", "DSTR"}
 cmds = []
 for l in hist:
     k = l.split(" ")[0]
